@@ -72,6 +72,10 @@ def shapes():
                     "ENTITY ent;\n a : INTEGER;\nEND_ENTITY;\nTYPE t_sel = SELECT (ent, t_int);\nEND_TYPE;\n"
                     "FUNCTION fun (x : INTEGER) : INTEGER;\n LOCAL\n  y : INTEGER;\n END_LOCAL;\n %s := x + 1;\n y := %s + x;\n IF %s > 2 THEN\n  y := 1;\n END_IF;\n RETURN (y);\nEND_FUNCTION;\n"
                     "ENTITY e2;\n b : INTEGER;\nWHERE\n w1 : b > %s;\nEND_ENTITY;\nEND_SCHEMA;\n" % (nm, nm, nm, nm), None))
+    # valid schemas that declare no entity or type (exp2cxx then opens fewer files)
+    out.append(("schema_nothing", "SCHEMA nothing;\nEND_SCHEMA;\n", ("valid", 0)))
+    out.append(("schema_only_function", "SCHEMA onlyfun;\nFUNCTION f (x : INTEGER) : INTEGER;\n RETURN (x);\nEND_FUNCTION;\nEND_SCHEMA;\n", ("valid", 0)))
+    out.append(("schema_only_constant", "SCHEMA onlyconst;\nCONSTANT\n c : INTEGER := 1;\nEND_CONSTANT;\nEND_SCHEMA;\n", ("valid", 0)))
     out.append(("empty", "", None))
     out.append(("only_keyword", "SCHEMA", None))
     out.append(("unterminated_string", BASE % "CONSTANT c : STRING := 'abc;\nEND_CONSTANT;", None))
